@@ -360,7 +360,8 @@ func SetForInterfaceFromArray(list []interface{}) *SetForInterfaceDef {
 
 // SetForInterfaceFromMap New Set instance from a map[interface{}]R
 func SetForInterfaceFromMap(theMap map[interface{}]interface{}) *SetForInterfaceDef {
-	return SetForInterfaceFromArray(KeysForInterface(theMap))
+	result := SetForInterfaceDef(theMap)
+	return &result
 }
 
 // MapKey Map all keys of Set by function
